@@ -32,7 +32,13 @@ RULE = ('bounded exhaustive enumeration of script programs, each executed by the
         '(c) nested IF/NOTIF/ELSE/ENDIF trees to depth 3 (incl. double ELSE) with every assignment of condition '
         'values from {"",01,00,80} (quick: {"",01,00} for the 3-condition trees); (d) P2PK / P2PKH / bare and P2SH multisig m-of-n<=3 spends with reference-made '
         'signatures (every m-tuple over the n valid signatures and a foreign one, signature/key encoding edge '
-        'classes, dummy variants) and CLTV/CSV templates over boundary operand/locktime/sequence values. Every '
+        'classes, dummy variants) and CLTV/CSV templates over boundary operand/locktime/sequence values; (e) histories '
+        'on ONE Script object: P2PK / P2PKH / bare / P2SH multisig spends built by {Script(cmds, message in None|A|B), '
+        'parse_bytes(raw, message=...), unlock + lock with every pair of messages} followed by every sequence of <= 2 '
+        '(thorough 3) operations from {evaluate(message in None|A|B, env_data variant), read .stack, append to .stack, '
+        '+ Script([], message=A|B)}: every evaluate must give the reference verdict for the message/env_data the call '
+        'is documented to use (argument if not None, else the attribute read just before the call), and non-signature '
+        'programs evaluated 2 (3) times on one object (the stack starts empty, commands are not consumed). Every '
         'program P is evaluated twice by the library (P and P+[OP_1], the second exposing "ran to completion" and '
         'the full final stack); compared: valid/invalid and the remaining stack. A case is non-trivial when the '
         'reference ran the program to completion (so a full final stack was compared) or the verdicts differ; '
@@ -1834,6 +1840,9 @@ def hist_name_class(devs, model_prog, obs, msgs, envs, msg_eff, env_eff, prev_st
     return out
 
 
+_HJ = {}
+
+
 def hist_run(S, tpl, unlock, lock, envs, ctor, seq, msgs):
     """Execute one history on one object.  Returns (devs, outcomes, n_evaluations)."""
     prog = list(unlock) + list(lock)
@@ -1874,7 +1883,12 @@ def hist_run(S, tpl, unlock, lock, envs, ctor, seq, msgs):
             except Exception as e:
                 obs = ('raise', repr(e)[:100])
             n += 1
-            d, out, model_prog = hist_judge(tpl, prog, obs, msg_eff, env_eff, prev_stack)
+            ck = (tpl, msg_eff, tuple(sorted(env_eff.items())), obs[0], tuple(obs[1]) if isinstance(obs[1], list)
+                  else obs[1])
+            if ck not in _HJ:        # the verdict of the oracle/model for this (message, env_data, observation)
+                _HJ[ck] = hist_judge(tpl, prog, obs, msg_eff, env_eff, prev_stack)
+            d, out, model_prog = _HJ[ck]
+            d = [dict(x) for x in d]
             d = hist_name_class(d, model_prog, obs, msgs, [e for e in envs], msg_eff, env_eff, prev_stack)
             for x in d:
                 x['detail'] = dict(x['detail'], history=_hist_show(trace), stored_message_before_call=(
@@ -1909,6 +1923,10 @@ def sub_hist(case):
         for l in range(0, case['L']):
             seqs += [[ops[case['first']]] + [ops[i] for i in t] for t in itertools.product(range(len(ops)), repeat=l)]
     for seq in seqs:
+        if seq and seq[-1][0] != 'eval':
+            continue        # nothing is observed after the last evaluate: same observations as the shorter history
+        if len(seq) >= 3 and any(o[0] == 'eval' and o[2] >= 2 for o in seq):
+            continue        # the third env_data variant takes part in all histories of length <= 2 only
         devs, outs, n = hist_run(S, case['tpl'], unlock, lock, envs, case['ctor'], seq, msgs)
         acc.n += max(n, 1)
         key = '%s:%s:%s' % (case['tpl'], case['ctor'], seq)
